@@ -247,6 +247,26 @@ fn semantic_rejects(s: &HState, m: usize, ctx: &mut Ctx) {
             reject_and_compare(w, m, &b.out.commit_message, "psk-commit-m-lacks-psk", "", ctx);
         }
     });
+    // a PSK commit while m holds another value for that PSK: everything validates, the update
+    // path is applied, and only the confirmation tag at the very end does not match
+    for (label, spec) in [
+        ("psk-commit-m-holds-other-value", CommitSpec { props: vec![Prop::ExternalPsk(0)], ..Default::default() }),
+        ("psk+remove-commit-m-holds-other-value", CommitSpec { props: vec![Prop::ExternalPsk(0), Prop::Remove(*peers.last().unwrap())], ..Default::default() }),
+    ] {
+        if spec.props.len() == 2 && (peers.len() < 2 || *peers.last().unwrap() == p) {
+            continue;
+        }
+        stores::with_fork(|| {
+            stores::peek(m as u32, |st| {
+                st.psks.insert(World::psk_id(0).to_vec(), b"a different value".to_vec());
+            });
+            let mut w2 = w.clone();
+            if let Ok(b) = w2.commit(p, &spec) {
+                ctx.goal("late-failure-at-confirmation-tag");
+                reject_and_compare(w, m, &b.out.commit_message, label, "", ctx);
+            }
+        });
+    }
     // a commit adding somebody m's identity provider refuses
     if let Some(&o) = w.outsiders().first() {
         stores::with_fork(|| {
